@@ -47,6 +47,8 @@ def render(segs, tag="s", alt=0, salt=None, hsh=None):
             parts.append("v=%d" % s["v"]["val"] if s["v"]["num"] else "v=" + ["x", "4294967296", ""][alt % 3])
         elif k == "par":
             fs = [_num(s["m"], "m", alt), _num(s["t"], "t", alt + 1), _num(s["p"], "p", alt + 2)]
+            if s.get("x", "none") != "none":
+                fs.append(s["x"])           # a token the parser does not know (may contain the text of a missing key)
             parts.append(",".join(f for f in fs if f is not None))
         elif k == "b64":
             nb64 += 1
